@@ -298,12 +298,61 @@ def check_seq(case, ctx: Ctx):
                 ctx.fail(C, f"length:{key}", f"{n}: {len(arr)} != duration incl. fall time {exp}")
             if not np.all(np.isfinite(arr)):
                 ctx.fail(C, f"non_finite:{key}", n)
+    # independent of the tree's own duration bookkeeping: (i) the arrays end where the last
+    # pulses have ramped down by the harness' account (end of each pulse + Pulse.fall_time),
+    # (ii) nothing of the output is cut off: the modulated amplitude keeps the programmed area
+    from pulser import Pulse as _Pulse
+
+    view = history.View(seq)
+    for n, cs in mod.channel_samples.items():
+        cv = view.ch.get(n)
+        if cv is None or cv.blocks or cv.is_dmm or not cv.obj.mod_bandwidth:
+            continue
+        exp_all = cv.end
+        for sl in cv.slots:
+            if isinstance(sl[0], _Pulse) and cv.end - sl[2] < 2 * cv.obj.rise_time:
+                exp_all = max(exp_all, sl[2] + cv.fall(sl))
+        lp = cv.last_pulse()
+        exp_last = cv.end if lp is None else max(cv.end, lp[2] + cv.fall(lp))
+        n_amp = len(np.asarray(cs.amp.as_array()))
+        if n_amp not in (exp_all, exp_last):
+            ctx.fail(C, "length_vs_own_fall_time",
+                     f"{n}: modulated arrays have {n_amp} samples, pulses have ramped down at {exp_last}/{exp_all}")
+        # what the sampler cuts off at the end must be negligible: the full modulated output
+        # of the programmed amplitude (Channel.modulate, judged by the filter clause) beyond
+        # the last returned sample stays below max(0.01 rad/us, 0.6 % of the peak)
+        x = np.asarray(plain.channel_samples[n].amp.as_array(), dtype=float)
+        if x.size and np.any(x):
+            full = np.asarray(cv.obj.modulate(x).as_array(), dtype=float)  # index i <-> time i - rise_time
+            tail = full[cv.obj.rise_time + n_amp:]
+            lim = max(0.01, 0.006 * float(np.max(np.abs(x))))
+            if tail.size and float(np.max(np.abs(tail))) > lim:
+                ctx.fail(C, "modulated_samples_cut_while_output_is_high",
+                         f"{n}: arrays end at {n_amp} ns where the output is still {float(np.max(np.abs(tail))):.4f} "
+                         f"rad/us (limit {lim:.4f}); last pulse ends at {lp[2] if lp else None}, rise time {cv.obj.rise_time}")
     T = max(seq.get_duration(n, include_fall_time=True) for n in seq._schedule)
     ext = ctx.must(lambda: sample(seq, modulation=True, extended_duration=T + 13), C,
                    "sample(modulation, extended)")
     for n, cs in ext.channel_samples.items():
         if cs.duration != T + 13:
             ctx.fail(C, "length:extended", f"{n}: {cs.duration} != {T + 13}")
+
+
+def profile_fall(tier):
+    """Pulses followed by short delays / retargets on modulated channels whose custom
+    phase-jump time is below twice the rise time (sequences ending inside a fall time)."""
+    from props import c02
+
+    def force(d):
+        import copy
+
+        d = copy.deepcopy(d)
+        for i, c in enumerate(d["channels"]):
+            c["custom_phase_jump_time"] = [0, 20, 40, 0][i % 4]
+        return d
+
+    p = c02.profile_fall(tier)
+    return dict(p, device=p["device"].map(force))
 
 
 CLAUSES = [
@@ -315,4 +364,7 @@ CLAUSES = [
            budget={"quick": (8, 150), "thorough": (16, 8000)}),
     Clause("sequence", check_seq, gen=lambda t: gen.programs(profile(t)),
            budget={"quick": (8, 80), "thorough": (16, 3000)}),
+    Clause("sequence_ending_in_fall_time", check_seq, gen=lambda t: gen.programs(profile_fall(t)),
+           budget={"quick": (8, 60), "thorough": (16, 1500)},
+           doc="modulated sampling of sequences that end with short delays after a pulse"),
 ]
